@@ -1,8 +1,9 @@
 (* C12 -- findings (not obligations of the check).  HISTORICAL: this file describes pdpy11 BEFORE
    commit 0fa6448 ("a link base whose dependence on itself cancels is solved wherever its parts
    are defined").  The finding no longer reproduces: the code now substitutes recursively
-   (Model/Poly.substitute; Props/C12.v: C12_substitute_sound, C12_substitute_complete and the
-   example C12_ex_substitute, which is the very input below), and ./check C12 expects every
+   (Model/Poly.substitute; Props/C12.v: C12_substitute_sound, C12_substitute_complete,
+   C12_substitute_semantically_complete -- the statement refuted below, proved for the new code --
+   and the example C12_ex_substitute, which is the very input below), and ./check C12 expects every
    solvable symbol-spelled link expression, anywhere, to be accepted.
 
    Before the fix, the base Promise `LA` and the Deferred it is settled to (`d`) were two different
